@@ -115,6 +115,12 @@ type CIte struct {
 }
 type CVec struct{ E []*Term }
 
+// CMapByte: every byte equal to Old is replaced by New (strings.ReplaceAll with one-byte patterns)
+type CMapByte struct {
+	Src      Content
+	Old, New *Term
+}
+
 var czero Content = &CZero{}
 
 // byte arrays longer than bigArr are held as ByteBuf (functional content) instead of element vectors
@@ -188,6 +194,9 @@ func (e *Exec) sel(c Content, idx *Term) *Term {
 		}
 	case *CIte:
 		r = tc.Ite(x.Cond, e.sel(x.A, idx), e.sel(x.B, idx))
+	case *CMapByte:
+		b := e.sel(x.Src, idx)
+		r = tc.Ite(tc.Eq(b, x.Old), x.New, b)
 	default:
 		panic(fmt.Sprintf("sel: unknown content %T", c))
 	}
